@@ -48,6 +48,8 @@ type Exec struct {
 	budget    int
 	cur       *State
 	entry     *HeapSnap
+	variantCalls int
+	entryMeasure []*Term // recursion variant of the function under verification, evaluated at entry
 	entryVals map[string]Value // parameter name -> entry value
 	entryTypes map[string]types.Type
 	labels    map[ssa.Instruction]string
